@@ -14,6 +14,7 @@ import copy
 import json
 import os
 import random
+import time
 
 from lib import e2e, faults, udprun, vlib
 from lib.vlib import Check
@@ -71,6 +72,7 @@ async def run_script(svc, script, seed, events):
                 ctx.last_down = (ln, data)
             return [data]
         svc.umb.hook = hook
+    base_fds = (dep.client.fds(), dep.server.fds())
     events.append({"ev": "Reset", "udploop": svc.fam == "ss", "udp": True})
     events.append({"ev": "Note", "conf": conf.label, "what": json.dumps(script)})
     try:
@@ -102,6 +104,15 @@ async def run_script(svc, script, seed, events):
             svc.umb.hook = None
         await ctx.close()
         w.close()
+        # the hostile peers of this sequence are gone now; let both processes drop what they held for them before the
+        # next sequence starts (a crowd on top of a crowd would exhaust the descriptors for good - not a per-flow fault)
+        # (a local connection that sent half a request line and left is held until the client's 30 s handshake deadline)
+        t0 = time.time()
+        while time.time() - t0 < 36.0:
+            cur = (dep.client.fds(), dep.server.fds())
+            if None in cur or None in base_fds or all(cur[i][0] <= base_fds[i][0] + 12 for i in (0, 1)):
+                break           # what is left are the bindings / associations of the well-behaved user's own datagrams
+            await asyncio.sleep(0.1)
 
 
 async def drive(c, tier, scripts_by_fam, rnd):
